@@ -110,6 +110,20 @@ def raising_calls(run, fi: FunctionInfo, stmt: ast.AST) -> List[ast.Call]:
     return [c for c in calls_in(stmt) if fx.call_may_raise(fi, c)]
 
 
+_NP_CONVERTERS = {"asarray", "array", "asanyarray", "ascontiguousarray", "asfortranarray", "broadcast_to", "broadcast_arrays", "reshape",
+                  "astype", "require", "fromiter", "concatenate", "stack"}
+
+
+def validating_numpy_call(call: ast.Call) -> bool:
+    """NumPy routines that validate caller-supplied data and raise on it (ragged sequences, impossible dtypes, incompatible shapes):
+    may-raise wherever they are applied inside the engine's critical regions (Tensor._op between locking and the releasing handlers)."""
+    d = dotted(call.func) or ""
+    leaf = d.split(".")[-1] if d else (call.func.attr if isinstance(call.func, ast.Attribute) else "")
+    if leaf not in _NP_CONVERTERS:
+        return False
+    return d.split(".")[0] in ("np", "numpy") or (isinstance(call.func, ast.Attribute) and leaf in ("astype", "reshape"))
+
+
 def op_instance_call(run, fi: FunctionInfo, call: ast.Call) -> bool:
     """`f(...)` where local f was bound to `Op()` and Op is a parameter / a class: the dynamic dispatch to an
     Operation's __call__ (the forward kernel). Always may-raise."""
@@ -228,3 +242,38 @@ def buffer_fill(cfg: CFG, buf: str, at: int):
         if (n == at or cfg.dominates(n, at)) and all(cfg.dominates(d, n) for d, _ in allocs):
             return allocs[0][1], allocs[0][1].args[0], n, src
     return None
+
+
+# functions in which a path legitimately ignores `constant` / `out` (one named symbol + reason each)
+PATH_DEAD_EXEMPT = {
+    ("mygrad.indexing_routines.funcs.where", "constant"): "the one-argument form returns np.where(condition): a tuple of plain index arrays, no tensor is produced",
+    ("mygrad.math.misc.funcs._multi_matmul", "constant"): "recursion base case i == j hands back the operand itself; no operation is performed",
+}
+
+
+def path_dead_option(run, rule: str, param: str, breaks: str) -> int:
+    """Every normal path through a function that accepts `param` (`constant` / `out`) and uses it somewhere reads it: a branch that computes
+    and returns a result without consulting the option silently ignores what the caller asked for.  Functions that never read the parameter
+    at all are decorator-filled stubs (their bodies are replaced by the ufunc machinery) and are judged by R03.2/R11.3 instead."""
+    import networkx as nx
+    n = 0
+    for fi in run.project.all_functions():
+        fn = fi.node
+        params = [a.arg for a in fn.args.posonlyargs + fn.args.args + fn.args.kwonlyargs]
+        if param not in params:
+            continue
+        cfg = CFG(fn)
+        uses = {nid for nid, st in cfg.stmt.items() if st is not None and not isinstance(st, (ast.FunctionDef, ast.AsyncFunctionDef, ast.ClassDef))
+                and any(isinstance(x, ast.Name) and x.id == param and isinstance(x.ctx, ast.Load) for x in ast.walk(st))}
+        if not uses:
+            continue
+        n += 1
+        g = cfg.g.copy()
+        g.remove_nodes_from(uses)
+        dead = ENTRY in g and EXIT in g and nx.has_path(g, ENTRY, EXIT)
+        ex = PATH_DEAD_EXEMPT.get((fi.qualname, param))
+        path = cfg.path_text(nx.shortest_path(g, ENTRY, EXIT)) if dead else None
+        run.ob(rule, loc(fi, fn), fi.short, f"`{param}` is consulted on every path that returns", (not dead) or ex is not None,
+               (f"every ENTRY->EXIT path reads `{param}`" if not dead else f"exempt: {ex}") if (not dead or ex) else
+               f"a path returns a result without reading `{param}`: {breaks}", path=path if dead and not ex else None)
+    return n
